@@ -8,5 +8,6 @@ for id in "$@"; do
   line=$(${VERIF_SRC:-/verif}/tools/mutate_scratch.sh /verif/seeded/$id/patch.diff $p | tail -1)
   res=$(echo "$line" | sed -E 's/^MUTANT [^:]*: ([A-Za-z]+).*/\1/')
   wit=$(echo "$line" | sed -nE 's/.*e\.g\. *(\[[^]]*\] )?([a-z_0-9]+) ::.*/\2/p')
-  printf '%s\t%s quick\t%s\t%s\n' "$id" "$p" "$res" "$wit" >> $out
+  mar=$(echo "$line" | sed -nE 's/.*, ([0-9?]+) violating cases\).*/\1/p')
+  printf '%s\t%s quick\t%s\t%s\t%s\n' "$id" "$p" "$res" "$wit" "$mar" >> $out
 done
